@@ -35,7 +35,7 @@ def formula_cases(tier):
     ns = [2, 3, 5, 10, 37, 100, 1000] + ([2000, 12345] if tier == "thorough" else [])
     out = []
     for n in ns:
-        for p in (1, 2, 3, 6):
+        for p in (1, 2, 3, 6, 32, 45, 64):
             for k in (1, 2, 3):
                 for scale in (0.0, 0.5, 1.0, 2.0, 3.7):
                     out.append({"n": n, "p": p, "k": k, "scale": scale, "L": min(n, 200), "b": max(1, n // 4), "level": 0.01})
